@@ -2,14 +2,93 @@
 //! not go through the serde pipeline, and the allow-list of explained
 //! normalisations.
 
-use crate::oracle::Diff;
-use crate::registry::Entry;
+use crate::mutate::Step;
+use crate::oracle::{Diff, DiffKind, Done};
+use crate::rules;
 use read_fonts::{FontRef, TableProvider};
 use serde_json::{json, Value};
 use vf_core::{guard, Ctx};
 
+fn get<'a>(v: &'a Value, path: &[Step]) -> Option<&'a Value> {
+    let mut cur = v;
+    for s in path {
+        cur = match s {
+            Step::Key(k) => cur.get(k.as_str())?,
+            Step::Idx(i) => cur.get(*i)?,
+        };
+    }
+    Some(cur)
+}
+
+fn gsub_type(variant: &str) -> Option<u64> {
+    Some(match variant {
+        "Single" => 1,
+        "Multiple" => 2,
+        "Alternate" => 3,
+        "Ligature" => 4,
+        "Contextual" => 5,
+        "ChainContextual" => 6,
+        "Reverse" => 8,
+        _ => return None,
+    })
+}
+
+fn gpos_type(variant: &str) -> Option<u64> {
+    Some(match variant {
+        "Single" => 1,
+        "Pair" => 2,
+        "Cursive" => 3,
+        "MarkToBase" => 4,
+        "MarkToLig" => 5,
+        "MarkToMark" => 6,
+        "Contextual" => 7,
+        "ChainContextual" => 8,
+        _ => return None,
+    })
+}
+
 /// Type-specific explained normalisations (see lib.rs `explain`).
-pub fn explain(_type_name: &str, _d: &Diff) -> Option<&'static str> {
+pub fn explain(type_name: &str, d: &Diff, done: &Done) -> Option<&'static str> {
+    let last = d.path.rsplit('.').next().unwrap_or("");
+    // --- GPOS ValueRecord (write-fonts/src/tables/gpos/value_record.rs)
+    // from_obj_ref: "we want to always preserve the format of an incoming
+    // record": a re-read record always has explicit_format = the format it was
+    // written with.
+    if last == "explicit_format" && d.kind == DiffKind::NullToSome && d.cpath.len() >= 1 {
+        let parent = get(&done.written, &d.cpath[..d.cpath.len() - 1])?.as_object()?;
+        let expect = rules::value_record_present_bits(parent);
+        let read_bits: Value = serde_json::from_str(&d.read).ok()?;
+        if read_bits.get("bits").and_then(|b| b.as_u64()) == Some(expect) {
+            return Some("ValueRecord-reread-carries-explicit-format");
+        }
+    }
+    // write_into: a field selected by the explicit format but None is written
+    // as 0 (`unwrap_or_default`), documented as the way to emit empty records
+    // of a given size; it reads back as Some(0).
+    if matches!(last, "x_placement" | "y_placement" | "x_advance" | "y_advance") && d.kind == DiffKind::NullToSome && d.read == "0" {
+        let parent = get(&done.written, &d.cpath[..d.cpath.len() - 1])?.as_object()?;
+        let bit = match last {
+            "x_placement" => 1,
+            "y_placement" => 2,
+            "x_advance" => 4,
+            _ => 8,
+        };
+        if parent.contains_key("explicit_format") && rules::value_record_format(parent)? & bit != 0 {
+            return Some("ValueRecord-explicit-format-writes-absent-field-as-zero");
+        }
+    }
+    // --- Extension subtables: the writer emits `T::TYPE` of the wrapped
+    // subtable type (write-fonts/src/tables/gsub.rs:53, gpos.rs likewise) and
+    // ignores the stored extension_lookup_type.
+    if last == "extension_lookup_type" && d.kind == DiffKind::Scalar && d.cpath.len() >= 2 {
+        if let Step::Key(variant) = &d.cpath[d.cpath.len() - 2] {
+            let is_gpos = matches!(type_name, "Gpos" | "PositionLookup" | "PositionLookupList");
+            let t = if is_gpos { gpos_type(variant) } else { gsub_type(variant) };
+            if t.is_some() && t.map(|x| x.to_string()) == Some(d.read.clone()) {
+                return Some("extension_lookup_type-recomputed-from-subtable-type");
+            }
+        }
+    }
     None
 }
 
@@ -93,7 +172,382 @@ pub fn extra_byte_seeds() -> Vec<(&'static str, Vec<u8>, &'static str)> {
     v
 }
 
-pub fn run_special(_ctx: &mut Ctx) {}
+// ---------------------------------------------------------------- glyf / loca (hand-written, no serde)
+
+use read_fonts::tables::glyf::{Anchor, CurvePoint, Transform};
+use read_fonts::{FontData, FontRead};
+use vf_core::{Digest, Rng};
+use write_fonts::tables::glyf::{Bbox, Component, ComponentFlags, CompositeGlyph, Contour, Glyph, SimpleGlyph};
+use write_fonts::tables::loca::{Loca, LocaFormat};
+use write_fonts::{dump_table, validate::Validate, FontWrite};
+
+const I16_BOUNDS: &[i16] = &[0, 1, -1, 2, 127, 128, -127, -128, -129, 255, 256, -255, -256, -257, 0x3FFF, 0x7FFF, -0x8000, -0x7FFF];
+
+fn glyph_case<T>(ctx: &mut Ctx, name: &'static str, v: &T, origin: &str, mutation: &str)
+where
+    T: FontWrite + Validate + PartialEq + std::fmt::Debug + for<'a> FontRead<'a>,
+{
+    ctx.eval();
+    ctx.count(&format!("type:{}:variants", name), 1);
+    let detail = |extra: Value| {
+        let mut dbg = format!("{:?}", v);
+        dbg.truncate(4000);
+        json!({"type": name, "origin": origin, "mutation": mutation, "value_debug": dbg, "more": extra})
+    };
+    match guard(|| v.validate()) {
+        Err(p) => {
+            ctx.judge_panic(&p, &format!("validate of {}", name), detail(json!({})), None);
+            return;
+        }
+        Ok(Err(_)) => {
+            ctx.count(&format!("type:{}:validate_rejected", name), 1);
+            return;
+        }
+        Ok(Ok(())) => {}
+    }
+    let bytes = match guard(|| dump_table(v)) {
+        Err(p) => {
+            ctx.judge_panic(&p, &format!("dump of a validated {}", name), detail(json!({})), None);
+            return;
+        }
+        Ok(Err(_)) => {
+            ctx.count("packing_failed", 1);
+            return;
+        }
+        Ok(Ok(b)) => b,
+    };
+    if bytes.is_empty() {
+        // "we don't bother writing empty glyphs" (simple.rs): nothing to read back
+        ctx.count("compiled_to_zero_bytes", 1);
+        return;
+    }
+    let mut dg = Digest::new();
+    dg.str(name);
+    dg.bytes(&bytes);
+    ctx.nontrivial(dg.finish());
+    ctx.label("types_round_tripped", name);
+    let v2 = match guard(|| T::read(FontData::new(&bytes))) {
+        Err(p) => {
+            ctx.judge_panic(&p, &format!("read of a compiled {}", name), detail(json!({})), Some(&bytes));
+            return;
+        }
+        Ok(Err(e)) => {
+            ctx.violation(&format!("reread-error:{}:-:{}", name, e), detail(json!({"read_error": e.to_string()})), Some(&bytes));
+            return;
+        }
+        Ok(Ok(v2)) => v2,
+    };
+    if &v2 != v {
+        let mut d2 = format!("{:?}", v2);
+        d2.truncate(4000);
+        // first differing position of the Debug renderings: a stable, specific key
+        ctx.violation(&format!("roundtrip-mismatch:{}:-:{}", name, mutation_class(mutation)), detail(json!({"read_debug": d2})), Some(&bytes));
+        return;
+    }
+    ctx.count(&format!("type:{}:roundtrip_equal", name), 1);
+    match guard(|| dump_table(&v2)) {
+        Ok(Ok(b2)) if b2 == bytes => ctx.count("redump_identical", 1),
+        Ok(_) => {
+            ctx.violation(&format!("redump-mismatch:{}:-:{}", name, mutation_class(mutation)), detail(json!({})), Some(&bytes));
+        }
+        Err(p) => ctx.judge_panic(&p, &format!("redump of {}", name), detail(json!({})), Some(&bytes)),
+    }
+}
+
+fn mutation_class(m: &str) -> &str {
+    m.split('=').next().unwrap_or(m)
+}
+
+fn mutate_simple(g: &SimpleGlyph, rng: &mut Rng) -> (SimpleGlyph, String) {
+    let mut contours: Vec<Vec<CurvePoint>> = g.contours.iter().map(|c| c.iter().copied().collect()).collect();
+    let mut bbox = g.bbox;
+    let mut instructions = g.instructions.clone();
+    let what;
+    match rng.below(10) {
+        0..=3 if !contours.is_empty() => {
+            let ci = rng.usize(contours.len());
+            if contours[ci].is_empty() {
+                contours[ci].push(CurvePoint::new(0, 0, true));
+            }
+            let pi = rng.usize(contours[ci].len());
+            let b = *rng.pick(I16_BOUNDS);
+            match rng.below(3) {
+                0 => contours[ci][pi].x = b,
+                1 => contours[ci][pi].y = b,
+                _ => contours[ci][pi].on_curve = !contours[ci][pi].on_curve,
+            }
+            what = format!("point={}", b);
+        }
+        4 if !contours.is_empty() => {
+            // long runs of identical points / flags (repeat-flag encoding)
+            let ci = rng.usize(contours.len());
+            let p = contours[ci].first().copied().unwrap_or(CurvePoint::new(0, 0, true));
+            let n = *rng.pick(&[1usize, 2, 3, 255, 256, 257, 300]);
+            for _ in 0..n {
+                contours[ci].push(p);
+            }
+            what = format!("repeat={}", n);
+        }
+        5 => {
+            let n = *rng.pick(&[0usize, 1, 2, 255, 256, 1000]);
+            instructions = rng.bytes(n);
+            what = format!("instructions={}", n);
+        }
+        6 => {
+            let b = *rng.pick(I16_BOUNDS);
+            match rng.below(4) {
+                0 => bbox.x_min = b,
+                1 => bbox.y_min = b,
+                2 => bbox.x_max = b,
+                _ => bbox.y_max = b,
+            }
+            what = format!("bbox={}", b);
+        }
+        7 if !contours.is_empty() => {
+            let ci = rng.usize(contours.len());
+            contours.remove(ci);
+            what = "remove-contour".into();
+        }
+        8 => {
+            let n = 1 + rng.usize(4);
+            let mut c = vec![];
+            for _ in 0..n {
+                c.push(CurvePoint::new(*rng.pick(I16_BOUNDS), *rng.pick(I16_BOUNDS), rng.bool()));
+            }
+            contours.push(c);
+            what = "add-contour".into();
+        }
+        _ => {
+            contours.push(vec![]);
+            what = "add-empty-contour".into();
+        }
+    }
+    let g2 = SimpleGlyph { bbox, contours: contours.into_iter().map(Contour::from).collect(), instructions };
+    (g2, what)
+}
+
+fn mutate_composite(g: &CompositeGlyph, rng: &mut Rng) -> Option<(CompositeGlyph, String)> {
+    let mut comps: Vec<Component> = g.components().to_vec();
+    if comps.is_empty() {
+        return None;
+    }
+    let i = rng.usize(comps.len());
+    let what;
+    match rng.below(7) {
+        0 | 1 => {
+            let x = *rng.pick(I16_BOUNDS);
+            let y = *rng.pick(I16_BOUNDS);
+            comps[i].anchor = Anchor::Offset { x, y };
+            what = format!("anchor-offset={},{}", x, y);
+        }
+        2 => {
+            let b = *rng.pick(&[0u16, 1, 127, 128, 255, 256, 0x7FFF, 0xFFFF]);
+            let c = *rng.pick(&[0u16, 1, 255, 256, 0xFFFF]);
+            comps[i].anchor = Anchor::Point { base: b, component: c };
+            what = format!("anchor-point={},{}", b, c);
+        }
+        3 => {
+            let f = |rng: &mut Rng| font_types::F2Dot14::from_bits(*rng.pick(&[0i16, 0x4000, -0x4000, 0x2000, 0x7FFF, -0x8000, 1, -1]));
+            let t = match rng.below(4) {
+                0 => Transform::default(),
+                1 => {
+                    let s = f(rng);
+                    Transform { xx: s, yx: font_types::F2Dot14::ZERO, xy: font_types::F2Dot14::ZERO, yy: s }
+                }
+                2 => Transform { xx: f(rng), yx: font_types::F2Dot14::ZERO, xy: font_types::F2Dot14::ZERO, yy: f(rng) },
+                _ => Transform { xx: f(rng), yx: f(rng), xy: f(rng), yy: f(rng) },
+            };
+            comps[i].transform = t;
+            what = "transform".into();
+        }
+        4 => {
+            comps[i].flags = ComponentFlags {
+                round_xy_to_grid: rng.bool(),
+                use_my_metrics: rng.bool(),
+                scaled_component_offset: rng.bool(),
+                unscaled_component_offset: rng.bool(),
+                overlap_compound: rng.bool(),
+            };
+            what = "flags".into();
+        }
+        5 => {
+            comps[i].glyph = font_types::GlyphId16::new(*rng.pick(&[0u16, 1, 255, 256, 0xFFFE, 0xFFFF]));
+            what = "glyph-id".into();
+        }
+        _ => {
+            let c = comps[i].clone();
+            let n = *rng.pick(&[1usize, 2, 30]);
+            for _ in 0..n {
+                comps.push(c.clone());
+            }
+            what = format!("dup-component={}", n);
+        }
+    }
+    let bbox = g.bbox;
+    let g2 = CompositeGlyph::try_from_iter(comps.into_iter().map(|c| (c, bbox))).ok()?;
+    Some((g2, what))
+}
+
+fn glyph_workload(ctx: &mut Ctx) {
+    let per_font = ctx.tier.pick(120usize, 1200);
+    let variants = ctx.tier.pick(24usize, 120);
+    let mut fonts = vf_core::corpus_fonts();
+    fonts.extend(vf_core::klippa_fonts());
+    let mut item = 0usize;
+    for cf in &fonts {
+        let Ok(font) = FontRef::new(&cf.data) else { continue };
+        let (Ok(loca), Ok(glyf)) = (font.loca(None), font.glyf()) else { continue };
+        let n = loca.len();
+        // loca itself
+        item += 1;
+        if ctx.mine(item) {
+            loca_workload(ctx, &loca, &cf.name);
+        }
+        let step = (n / per_font).max(1);
+        for gid in (0..n).step_by(step) {
+            item += 1;
+            if !ctx.mine(item) {
+                continue;
+            }
+            let g = match guard(|| loca.get_glyf(font_types::GlyphId::new(gid as u32), &glyf)) {
+                Ok(Ok(Some(g))) => g,
+                _ => continue,
+            };
+            let owned: Glyph = match guard(|| write_fonts::from_obj::ToOwnedTable::to_owned_table(&g)) {
+                Ok(o) => o,
+                Err(_) => {
+                    ctx.count("seed_glyph_conversion_panics", 1);
+                    continue;
+                }
+            };
+            let origin = format!("{}#gid{}", cf.name, gid);
+            let mut rng = Rng::derive(ctx.seed, &cf.name, gid as u64);
+            glyph_case(ctx, "Glyph", &owned, &origin, "seed");
+            match &owned {
+                Glyph::Simple(s) => {
+                    ctx.count("type:SimpleGlyph:seeds", 1);
+                    glyph_case(ctx, "SimpleGlyph", s, &origin, "seed");
+                    let mut cur = s.clone();
+                    for k in 0..variants {
+                        let (m, what) = mutate_simple(&cur, &mut rng);
+                        glyph_case(ctx, "SimpleGlyph", &m, &origin, &what);
+                        // stack mutations half of the time
+                        if k % 2 == 0 && m.validate().is_ok() {
+                            cur = m;
+                        } else {
+                            cur = s.clone();
+                        }
+                    }
+                }
+                Glyph::Composite(c) => {
+                    ctx.count("type:CompositeGlyph:seeds", 1);
+                    glyph_case(ctx, "CompositeGlyph", c, &origin, "seed");
+                    let mut cur = c.clone();
+                    for k in 0..variants {
+                        if let Some((m, what)) = mutate_composite(&cur, &mut rng) {
+                            glyph_case(ctx, "CompositeGlyph", &m, &origin, &what);
+                            cur = if k % 2 == 0 { m } else { c.clone() };
+                        }
+                    }
+                }
+                Glyph::Empty => {}
+            }
+        }
+    }
+    let _ = Bbox::default();
+}
+
+/// loca: `Loca::new(offsets)` picks the format; read back with that format.
+/// Assumption: offsets are non-decreasing (loca's own invariant).
+fn loca_workload(ctx: &mut Ctx, loca: &read_fonts::tables::loca::Loca, origin: &str) {
+    let base: Vec<u32> = (0..=loca.len()).filter_map(|i| loca.get_raw(i)).collect();
+    let mut rng = Rng::derive(ctx.seed, "loca", vf_core::fnv64(origin.as_bytes()));
+    let n = ctx.tier.pick(12usize, 60);
+    for k in 0..=n {
+        let mut offs = base.clone();
+        let what = if k == 0 {
+            "seed".to_string()
+        } else {
+            match rng.below(5) {
+                0 => {
+                    // shift the tail by an odd amount → long format
+                    let i = rng.usize(offs.len().max(1));
+                    for o in offs.iter_mut().skip(i) {
+                        *o = o.saturating_add(1);
+                    }
+                    "odd-tail".into()
+                }
+                1 => {
+                    let last = *rng.pick(&[0x1FFFEu32, 0x20000, 0x20002, 0xFFFF_FFFE, 0xFFFF_FFFF]);
+                    offs.push(last.max(offs.last().copied().unwrap_or(0)));
+                    format!("last={:#x}", last)
+                }
+                2 => {
+                    offs.truncate(rng.usize(offs.len() + 1));
+                    "truncate".into()
+                }
+                3 => {
+                    offs.clear();
+                    "empty".into()
+                }
+                _ => {
+                    let m = *rng.pick(&[2u32, 4, 0x10000]);
+                    for o in offs.iter_mut() {
+                        *o = o.saturating_mul(m);
+                    }
+                    format!("scale={}", m)
+                }
+            }
+        };
+        ctx.eval();
+        ctx.count("type:Loca:variants", 1);
+        let v = Loca::new(offs.clone());
+        let bytes = match guard(|| dump_table(&v)) {
+            Ok(Ok(b)) => b,
+            Ok(Err(_)) => continue,
+            Err(p) => {
+                ctx.judge_panic(&p, "dump of Loca", json!({"type": "Loca", "origin": origin, "mutation": what}), None);
+                continue;
+            }
+        };
+        let is_long = v.format() == LocaFormat::Long;
+        let r = guard(|| read_fonts::tables::loca::Loca::read(FontData::new(&bytes), is_long).map(|l| (0..=l.len()).filter_map(|i| l.get_raw(i)).collect::<Vec<u32>>()));
+        let back = match r {
+            Ok(Ok(b)) => b,
+            Ok(Err(e)) => {
+                if !offs.is_empty() {
+                    ctx.violation(&format!("reread-error:Loca:{}:{}", if is_long { "long" } else { "short" }, e), json!({"type": "Loca", "origin": origin, "mutation": what}), Some(&bytes));
+                }
+                continue;
+            }
+            Err(p) => {
+                ctx.judge_panic(&p, "read of Loca", json!({"type": "Loca", "origin": origin, "mutation": what}), Some(&bytes));
+                continue;
+            }
+        };
+        if !bytes.is_empty() {
+            let mut dg = Digest::new();
+            dg.str("Loca");
+            dg.bytes(&bytes);
+            ctx.nontrivial(dg.finish());
+        }
+        ctx.label("types_round_tripped", "Loca");
+        ctx.label("variants_seen", if is_long { "Loca:long" } else { "Loca:short" });
+        if back != offs {
+            ctx.violation(
+                &format!("roundtrip-mismatch:Loca:{}:offsets", if is_long { "long" } else { "short" }),
+                json!({"type": "Loca", "origin": origin, "mutation": what, "written_len": offs.len(), "read_len": back.len()}),
+                Some(&bytes),
+            );
+        } else {
+            ctx.count("type:Loca:roundtrip_equal", 1);
+        }
+    }
+}
+
+pub fn run_special(ctx: &mut Ctx) {
+    glyph_workload(ctx);
+}
 
 pub fn replay(_ctx: &mut Ctx, _rec: &Value) -> bool {
     false
